@@ -339,32 +339,37 @@ def run_cases(chk, cases):
 
 
 def judge_parallel(chk, module, traces, label, wrap=None, parts=3, per=400, timeout=2400):
-    """batch validation with `parts` concurrent TLC processes (JSON parsing is single-threaded in TLC)"""
+    """batch validation with `parts` concurrent TLC processes of at most `per` traces each (JSON parsing is
+    single-threaded in TLC); more traces than that are judged batch after batch"""
     from concurrent.futures import ThreadPoolExecutor
 
+    rej, extra, results = {}, {}, []
     if not traces:
-        return {}, {}, {}
-    nparts = max(1, min(parts, (len(traces) + per - 1) // per))
-    chunks = [traces[i::nparts] for i in range(nparts)]
+        return rej, extra, results
+    batch = parts * per
+    nb = (len(traces) + batch - 1) // batch
+    for b in range(nb):
+        sub = traces[b * batch: (b + 1) * batch]
+        nparts = max(1, min(parts, (len(sub) + per - 1) // per))
+        chunks = [sub[i::nparts] for i in range(nparts)]
 
-    def one(i):
-        part = chunks[i]
-        payload = wrap(part) if wrap else part
-        r = tlc_staggered(chk, module, traces=payload, workers=max(2, 12 // nparts), timeout=timeout, heap="5g",
-                          label="%s part %d/%d" % (label, i + 1, nparts))
-        return r
+        def one(i):
+            part = chunks[i]
+            payload = wrap(part) if wrap else part
+            return tlc_staggered(chk, module, traces=payload, workers=max(2, 12 // nparts), timeout=timeout, heap="5g",
+                                 label="%s batch %d/%d part %d/%d" % (label, b + 1, nb, i + 1, nparts))
 
-    with ThreadPoolExecutor(nparts) as ex:
-        results = list(ex.map(one, range(nparts)))
-    rej, acc, extra = {}, {}, {}
-    for ci, (part, r) in enumerate(zip(chunks, results)):
-        for p in r.rej:
-            rej.setdefault(id(part[p[0] - 1]), (part[p[0] - 1], p[1:]))
-        for tag in ("ACC", "SKP", "HBS"):
-            for p in r.prints.get(tag, []):
-                extra.setdefault(tag, {})[id(part[p[0] - 1])] = p[1:]
-        if module == "Trace_C06" and r.distinct < 2 * len(part):
-            raise MachineryError("%s judged %d states for %d traces" % (module, r.distinct, len(part)))
+        with ThreadPoolExecutor(nparts) as ex:
+            res = list(ex.map(one, range(nparts)))
+        for part, r in zip(chunks, res):
+            for p in r.rej:
+                rej.setdefault(id(part[p[0] - 1]), (part[p[0] - 1], p[1:]))
+            for tag in ("ACC", "SKP", "HBS"):
+                for p in r.prints.get(tag, []):
+                    extra.setdefault(tag, {})[id(part[p[0] - 1])] = p[1:]
+            if module == "Trace_C06" and r.distinct < 2 * len(part):
+                raise MachineryError("%s judged %d states for %d traces" % (module, r.distinct, len(part)))
+        results += res
     return rej, extra, results
 
 
@@ -455,14 +460,13 @@ def run(chk):
             with open(fn) as f:
                 d = json.load(f)
             graphs, states = d["graphs"], d["states"]
+    from concurrent.futures import ThreadPoolExecutor
+
     pack_traces = run_pack_replay(chk, graphs) if "pack" in PARTS else []
-    rej, _x, _r = judge_parallel(chk, "Trace_C06", pack_traces, "Trace_C06 pack", parts=2, per=5000)
-    report_simple(chk, rej, "pack")
-    chk.traces_validated += len(pack_traces) - len(rej)
     split_traces = run_split_replay(chk, states) if "split" in PARTS else []
-    rej, _x, _r = judge_parallel(chk, "Trace_C06", split_traces, "Trace_C06 split", parts=2, per=300)
-    report_simple(chk, rej, "split")
-    chk.traces_validated += len(split_traces) - len(rej)
+    pool = ThreadPoolExecutor(4)       # the four judgements are independent: they run side by side
+    f_pack = pool.submit(judge_parallel, chk, "Trace_C06", pack_traces, "Trace_C06 pack", None, 2, 5000)
+    f_split = pool.submit(judge_parallel, chk, "Trace_C06", split_traces, "Trace_C06 split", None, 2, 300)
 
     # ---- (V) judge ----------------------------------------------------------------------------------
     e2e, loops, owner = [], [], {}
@@ -483,6 +487,10 @@ def run(chk):
             stats["distinct_results"] += len(t["runs"])
             stats["results_that_differ_structurally_from_memory"] += sum(1 for x in t["runs"] if not x["sameM"] and not x["err"])
             stats["compiles_that_raised"] += sum(1 for x in t["runs"] if x["err"])
+            for x in t["runs"]:
+                if x["err"]:
+                    d = stats.setdefault("errors_raised (case: exception per mode)", {})
+                    d.setdefault(case["label"], []).append("%s: %s" % ("/".join(m + str(l) for m, l in x["modes"]), x["err"]))
             chk.count(nruns)
             changed = any(any(x for c in run["hb"] for x in c) for run in t["runs"])
             if changed or any(not x["sameM"] for x in t["runs"]):
@@ -501,7 +509,15 @@ def run(chk):
     chk.notes["end_to_end"] = stats
     chk.log("judging %d fonts (%d runs) and %d loop traces" % (len(e2e), stats["runs"], len(loops)))
 
-    rej, extra, _r = judge_parallel(chk, "Trace_C06", e2e, "Trace_C06 e2e", parts=4, per=40)
+    f_e2e = pool.submit(judge_parallel, chk, "Trace_C06", e2e, "Trace_C06 e2e", None, 4, 40)
+    f_loop = pool.submit(judge_parallel, chk, "Trace_C06_Loop", loops, "Trace_C06_Loop", lambda part: {"meta": {}, "traces": part}, 1, 100000)
+    rej, _x, _r = f_pack.result()
+    report_simple(chk, rej, "pack")
+    chk.traces_validated += len(pack_traces) - len(rej)
+    rej, _x, _r = f_split.result()
+    report_simple(chk, rej, "split")
+    chk.traces_validated += len(split_traces) - len(rej)
+    rej, extra, _r = f_e2e.result()
     hbs = extra.get("HBS", {})
     tot = [0, 0, 0]
     for v in hbs.values():
@@ -514,7 +530,8 @@ def run(chk):
     for k, (st, clause) in rej.items():
         case, t = owner[id(st)]
         e2e_rej.append((case, t, clause[0]))
-    rej, extra, _r = judge_parallel(chk, "Trace_C06_Loop", loops, "Trace_C06_Loop", wrap=lambda part: {"meta": {}, "traces": part}, parts=1, per=100000)
+    rej, extra, _r = f_loop.result()
+    pool.shutdown()
     acc, skp = extra.get("ACC", {}), extra.get("SKP", {})
     for tl in loops:
         if id(tl) in skp:
